@@ -222,7 +222,7 @@ func referenceLine(l []byte, bh *Header) error {
 
 	var (
 		t        Tag
-		rf       = &Reference{}
+		rf       = &Reference{id: -1}
 		seen     = map[Tag]struct{}{}
 		nok, lok bool
 		dupID    int32
@@ -293,6 +293,7 @@ func referenceLine(l []byte, bh *Header) error {
 		old.id = -1
 		bh.refs[dupID] = rf
 		rf.owner = bh
+		rf.id = dupID
 		return nil
 	}
 	if !nok || !lok {
